@@ -55,7 +55,10 @@ func checkC04(r *Run) {
 	checkBytesCoverage(r, "C04.T2", protoScope, 2)
 	checkSentinelErrors(r, "C04.B5")
 }
-func checkC05(r *Run) { genericGuards(r) }
+func checkC05(r *Run) {
+	genericGuards(r)
+	r.CheckOperandImmutability("C05.I1", Scope{Include: []string{"pkg/mpc/sharing/", "pkg/base/mat/", "pkg/commitments/"}}, 30)
+}
 func checkC06(r *Run) { genericGuards(r) }
 func checkC08(r *Run) {
 	genericGuards(r)
@@ -68,7 +71,10 @@ func checkC10(r *Run) {
 	checkSentinelErrors(r, "C10.B5")
 }
 func checkC13(r *Run) { genericGuards(r) }
-func checkC15(r *Run) { genericGuards(r) }
+func checkC15(r *Run) {
+	genericGuards(r)
+	r.CheckSelectorDisjoint("C15.S1", Scope{Include: []string{"pkg/signatures/"}}, 2)
+}
 func checkC16(r *Run) { genericGuards(r) }
 func checkC17(r *Run) { genericGuards(r) }
 func checkC18(r *Run) { genericGuards(r) }
